@@ -26,6 +26,7 @@ extern "C" {
     fn chroot(path: *const std::ffi::c_char) -> i32;
     fn umask(mask: u32) -> u32;
     fn mkfifo(path: *const std::ffi::c_char, mode: u32) -> i32;
+    fn mknod(path: *const std::ffi::c_char, mode: u32, dev: u64) -> i32;
     fn getrlimit(resource: i32, rlim: *mut [u64; 2]) -> i32;
     fn setrlimit(resource: i32, rlim: *const [u64; 2]) -> i32;
     fn signal(sig: i32, handler: usize) -> usize;
@@ -828,6 +829,20 @@ fn make_fifo(key: &[u8]) -> bool {
     unsafe { mkfifo(c.as_ptr(), 0o644) == 0 }
 }
 
+/// Create a non-regular node with the observer's tools: fifo | sock | dgram | chr | blk.
+/// Device nodes are never opened by anything in this harness (chr = 1:3 like /dev/null, blk = 0:0).
+fn make_special(key: &[u8], kind: &str) -> bool {
+    let c = std::ffi::CString::new(key.to_vec()).unwrap();
+    match kind {
+        "fifo" => make_fifo(key),
+        "sock" => key.len() < 100 && std::os::unix::net::UnixListener::bind(osp(key)).is_ok(),
+        "dgram" => key.len() < 100 && std::os::unix::net::UnixDatagram::bind(osp(key)).is_ok(),
+        "chr" => unsafe { mknod(c.as_ptr(), 0o020_000 | 0o644, (1 << 8) | 3) == 0 },
+        "blk" => unsafe { mknod(c.as_ptr(), 0o060_000 | 0o644, 0) == 0 },
+        _ => false,
+    }
+}
+
 /// relative link text from the directory holding `link_key` to `target_key`
 fn rel_target(link_key: &[u8], target_key: &[u8]) -> B {
     let depth = link_key.iter().filter(|c| **c == b'/').count();
@@ -924,12 +939,15 @@ fn grow(r: &mut Rng, rabs: &[u8], root: &[u8], n: usize, max_depth: usize, outsi
                 b"dangling".to_vec()
             };
             std::os::unix::fs::symlink(OsString::from_vec(target), osp(&key)).is_ok()
-        } else if k < 97 {
-            make_fifo(&key)
-        } else if key.len() < 100 {
-            std::os::unix::net::UnixListener::bind(osp(&key)).is_ok()
         } else {
-            false
+            let kind = match k {
+                92..=94 => "fifo",
+                95 => "chr",
+                96 => "blk",
+                97 => "dgram",
+                _ => "sock",
+            };
+            make_special(&key, kind)
         };
         if ok {
             made += 1;
@@ -942,6 +960,8 @@ struct View {
     dirs: Vec<B>,
     files: Vec<B>,
     links: Vec<B>,
+    /// fifos, sockets, device nodes in `t`
+    specials: Vec<B>,
     /// (link key, key of the directory it resolves to)
     linkdirs: Vec<(B, B)>,
     out_files: Vec<B>,
@@ -953,6 +973,7 @@ fn view(snap: &Snap, rabs: &[u8]) -> View {
         dirs: vec![],
         files: vec![],
         links: vec![],
+        specials: vec![],
         linkdirs: vec![],
         out_files: vec![],
         out_dirs: vec![],
@@ -965,6 +986,7 @@ fn view(snap: &Snap, rabs: &[u8]) -> View {
             Node::Dir if in_s => v.out_dirs.push(k.clone()),
             Node::File(_) if in_t => v.files.push(k.clone()),
             Node::File(_) if in_s => v.out_files.push(k.clone()),
+            Node::Fifo | Node::Sock | Node::Chr | Node::Blk if in_t => v.specials.push(k.clone()),
             Node::Link(_) if in_t => {
                 v.links.push(k.clone());
                 if let Ok(res) = model::resolve(snap, rabs, k, true) {
@@ -1133,8 +1155,15 @@ fn gen_op(cx: &mut Ctx, snap: &Snap, v: &View) -> Op {
                     key.extend_from_slice(b"/nd");
                 }
                 key
-            } else if k < 90 && !v.files.is_empty() {
+            } else if k < 86 && !v.files.is_empty() {
                 let mut key = r.pick(&v.files).clone();
+                if r.chance(1, 2) {
+                    key.extend_from_slice(b"/nd");
+                }
+                key
+            } else if k < 93 && !v.specials.is_empty() {
+                // fifo / socket / device node as leaf or as ancestor (mkdir+stat never open it)
+                let mut key = r.pick(&v.specials).clone();
                 if r.chance(1, 2) {
                     key.extend_from_slice(b"/nd");
                 }
@@ -1317,6 +1346,22 @@ fn mode_cda(cx: &mut Ctx, budget: u64) {
                 "parent-dangling-link",
                 "grandparent-link-to-sentinel-dir",
                 "leaf-dir",
+                "leaf=fifo",
+                "leaf=sock",
+                "leaf=dgram",
+                "leaf=chr",
+                "leaf=blk",
+                "parent=fifo",
+                "parent=sock",
+                "parent=dgram",
+                "parent=chr",
+                "parent=blk",
+                "grandparent=fifo",
+                "grandparent=sock",
+                "grandparent=chr",
+                "grandparent=blk",
+                "leaf-link-to=sock",
+                "leaf-link-to=blk",
             ] {
                 case += 1;
                 let base = format!("k{case}").into_bytes();
@@ -1357,6 +1402,24 @@ fn mode_cda(cx: &mut Ctx, budget: u64) {
                         sym(b"nowhere", &x);
                         join_key(&x, b"leaf")
                     }
+                    k if k.contains('=') => {
+                        let (pos, what) = k.split_once('=').unwrap();
+                        let node = if pos == "leaf-link-to" { join_key(&base, b"node") } else { x.clone() };
+                        if !make_special(&node, what) {
+                            cx.count(&format!("skipped_cannot_create_{what}_node"), 1);
+                            let _ = std::fs::remove_dir_all(osp(&base));
+                            continue;
+                        }
+                        match pos {
+                            "leaf" => x.clone(),
+                            "parent" => join_key(&x, b"leaf"),
+                            "grandparent" => join_key(&join_key(&x, b"mid"), b"leaf"),
+                            _ => {
+                                sym(b"node", &x);
+                                x.clone()
+                            }
+                        }
+                    }
                     "grandparent-link-to-sentinel-dir" => {
                         sym(&abs_of(&rabs, b"s/sd"), &x);
                         join_key(&join_key(&x, b"mid"), b"leaf")
@@ -1369,6 +1432,9 @@ fn mode_cda(cx: &mut Ctx, budget: u64) {
                 let mut p = if abs { abs_of(&rabs, &key) } else { key.clone() };
                 p.extend_from_slice(trail.as_bytes());
                 run_op(cx, &Op::Cda { p }, None, &format!("cda-kinds {kind} abs={abs} trail={trail:?}"));
+                let l = cx.last.clone();
+                cx.count(&format!("cda_kinds/{kind}/{l}"), 1);
+                vh::distinct(&format!("cda-kind/{kind}/{}", l.split(':').next().unwrap_or("")));
                 let _ = std::fs::remove_dir_all(osp(&base));
                 let _ = std::fs::remove_dir_all("s/sd");
             }
@@ -1659,14 +1725,20 @@ fn unique_names(r: &mut Rng, count: usize, len_of: &mut dyn FnMut(&mut Rng) -> u
 fn fill_dir(r: &mut Rng, rabs: &[u8], dir: &[u8], names: &[B], kinds: &str) {
     for (i, n) in names.iter().enumerate() {
         let key = join_key(dir, n);
-        let k = if kinds == "files" { 0 } else { (i as u64 + r.below(2)) % 8 };
+        let k = if kinds == "files" { 0 } else { (i as u64 + r.below(2)) % 10 };
         match k {
             0..=2 => std::fs::write(osp(&key), b"x").unwrap(),
             3 | 4 => std::fs::create_dir(osp(&key)).unwrap(),
             5 => std::os::unix::fs::symlink(OsString::from_vec(abs_of(rabs, b"s/keepdir")), osp(&key)).unwrap(),
             6 => std::os::unix::fs::symlink("dangling-target", osp(&key)).unwrap(),
             _ => {
-                if !make_fifo(&key) {
+                let kind = match k {
+                    7 if i % 3 == 0 => "sock",
+                    7 => "fifo",
+                    8 => "chr",
+                    _ => "blk",
+                };
+                if !make_special(&key, kind) && !make_fifo(&key) {
                     std::fs::write(osp(&key), b"x").unwrap()
                 }
             }
